@@ -84,23 +84,71 @@ func (env *Env) resolveType(text string) (types.Type, string) {
 	case "time.Time", "Time":
 		return nil, "Int"
 	}
+	if t := env.parseType(text); t != nil {
+		return t, env.u.D.SortOf(t)
+	}
+	fail("cannot resolve type %q in specification", text)
+	return nil, ""
+}
+
+// parseType resolves a small subset of Go type syntax: *T, []T, map[K]V, T, pkg.T.
+func (env *Env) parseType(text string) types.Type {
+	text = strings.TrimSpace(text)
+	switch {
+	case strings.HasPrefix(text, "*"):
+		if t := env.parseType(text[1:]); t != nil {
+			return types.NewPointer(t)
+		}
+		return nil
+	case strings.HasPrefix(text, "[]"):
+		if t := env.parseType(text[2:]); t != nil {
+			return types.NewSlice(t)
+		}
+		return nil
+	case strings.HasPrefix(text, "map["):
+		d := 0
+		for i, c := range text {
+			if c == '[' {
+				d++
+			} else if c == ']' {
+				d--
+				if d == 0 {
+					k, v := env.parseType(text[4:i]), env.parseType(text[i+1:])
+					if k != nil && v != nil {
+						return types.NewMap(k, v)
+					}
+					return nil
+				}
+			}
+		}
+		return nil
+	}
+	if o := types.Universe.Lookup(text); o != nil {
+		if tn, ok := o.(*types.TypeName); ok {
+			return tn.Type()
+		}
+	}
+	if pn, tn, ok := strings.Cut(text, "."); ok {
+		for _, p := range env.u.E.ByName[pn] {
+			if o, ok := p.Scope().Lookup(tn).(*types.TypeName); ok {
+				return o.Type()
+			}
+		}
+		return nil
+	}
 	pkgs := []*types.Package{env.pkg}
 	for _, p := range env.u.E.Pkgs {
-		if p.Types != env.pkg {
-			pkgs = append(pkgs, p.Types)
-		}
+		pkgs = append(pkgs, p.Types)
 	}
 	for _, p := range pkgs {
 		if p == nil {
 			continue
 		}
-		tv, err := types.Eval(env.u.E.Fset, p, token.NoPos, text)
-		if err == nil && tv.IsType() {
-			return tv.Type, env.u.D.SortOf(tv.Type)
+		if o, ok := p.Scope().Lookup(text).(*types.TypeName); ok {
+			return o.Type()
 		}
 	}
-	fail("cannot resolve type %q in specification", text)
-	return nil, ""
+	return nil
 }
 
 func (env *Env) eval(e Expr) SVal {
@@ -161,6 +209,11 @@ func (env *Env) eval(e Expr) SVal {
 			return SVal{T: app("-", v.T), Typ: v.Typ, Sort: v.Sort}
 		case "*":
 			return env.deref(v)
+		case "&":
+			if !v.AtRef {
+				fail("& of a non-addressable specification expression")
+			}
+			return SVal{T: v.T, Typ: types.NewPointer(v.Typ), Sort: "Ref"}
 		}
 	case *EBinary:
 		return env.binary(x)
@@ -387,9 +440,6 @@ func (env *Env) index(v SVal, i SVal) SVal {
 	switch t := types.Unalias(v.Typ).Underlying().(type) {
 	case *types.Slice:
 		addr := app("saddr", v.T, i.T)
-		if isStructType(t.Elem()) || isArrayType(t.Elem()) {
-			return SVal{T: addr, Typ: t.Elem(), Sort: d.SortOf(t.Elem()), AtRef: true}
-		}
 		h, hs := d.CellHeap(t.Elem())
 		return env.sv(sel(env.cur.heap(h, hs), addr), t.Elem())
 	case *types.Map:
@@ -640,7 +690,7 @@ func (env *Env) call(x *ECall) SVal {
 		var cs []Term
 		*env.qn++
 		i := fmt.Sprintf("i!q%d", *env.qn)
-		for _, lh := range env.a.leafHeaps(sl.Elem()) {
+		for _, lh := range env.a.elemHeaps(sl.Elem()) {
 			addr := lh.addr(app("saddr", v.T, i))
 			cs = append(cs, eq(sel(env.cur.heap(lh.name, lh.sort), addr), sel(env.old.heap(lh.name, lh.sort), addr)))
 		}
